@@ -131,9 +131,45 @@ func runC08(c *vk.Ctx) {
 			othersActive = othersActive.Sub(p.liq)
 		}
 		sprAddr, incAddr := pool.GetSpreadRewardsAddress().String(), pool.GetIncentivesAddress().String()
+		mass0, massOK0 := c08IncentiveMass(w)
+		liq0 := pool.GetLiquidity()
 		return func(res chain.ExecResult, idAfter uint64) {
 			c.Eval(1)
 			paidS, paidI := transfersFrom(res, sprAddr), transfersFrom(res, incAddr)
+			// pool-wide: what the operation takes away from one position (forfeits included) must show up as a payment
+			// or with the other positions — it cannot vanish, and nothing can appear from nowhere
+			if mass1, ok1 := c08IncentiveMass(w); massOK0 && ok1 && res.OK() {
+				mass1 = mass1.Add(sdk.NewDecCoinsFromCoins(paidI...)...)
+				lq := liq0
+				if l1 := w.pool().GetLiquidity(); l1.GT(lq) {
+					lq = l1
+				}
+				per := new(big.Rat).SetFrac(lq.BigInt(), pow10(36)) // L x 1e-18 token units per truncated growth
+				if w.scaledIncent {
+					per.Quo(per, new(big.Rat).SetInt(pow10(27)))
+				}
+				nUp := int64(len(cltypes.SupportedUptimes))
+				bound := new(big.Rat).Mul(per, big.NewRat(nUp+1, 1))
+				bound.Add(bound, big.NewRat(2*nUp*int64(len(w.pos)+2)+4, 1))
+				denoms := map[string]bool{}
+				for _, cn := range mass0 {
+					denoms[cn.Denom] = true
+				}
+				for _, cn := range mass1 {
+					denoms[cn.Denom] = true
+				}
+				for d := range denoms {
+					diff := new(big.Rat).SetFrac(mass1.AmountOf(d).Sub(mass0.AmountOf(d)).BigInt(), pow10(18))
+					ad := new(big.Rat).Abs(diff)
+					rf, _ := new(big.Rat).Quo(ad, bound).Float64()
+					c.Max("incentive_mass_change_over_bound", rf, fmt.Sprintf("%s on position %d: %s%s bound %s", op, p.id, diff.FloatString(3), d, bound.FloatString(1)))
+					if ad.Cmp(bound) > 0 {
+						c.Violate("C08.incentive_mass", map[string]any{"op": op, "lost": diff.Sign() < 0}, "%s on position %d: claimable + not-yet-matured + undistributed incentives of the whole pool, plus what the message paid out, changed by %s%s (truncation allowance %s): incentives were lost or created by the operation", op, p.id, diff.FloatString(3), d, bound.FloatString(1))
+						return
+					}
+				}
+				c.Class("incentive-mass|%s|nonzero%v", op, !mass0.IsZero())
+			}
 			sr1, ci1 := sdk.NewCoins(), sdk.NewCoins()
 			if idAfter != 0 {
 				var e error
@@ -385,6 +421,26 @@ func c08EmissionBound(c *vk.Ctx, w *clWorld, op string) bool {
 		return true
 	}
 	now := ctx.BlockTime()
+	// time with active liquidity: between two observations the active liquidity is constant (every operation that
+	// changes it synchronises the accumulators first), and nothing is emitted while it is zero
+	if w.liquidTime == nil {
+		w.liquidTime = map[uint64]time.Duration{}
+		w.incDust = map[string]*big.Rat{}
+	}
+	liqNow := w.pool().GetLiquidity()
+	if !w.prevCheckTime.IsZero() && now.After(w.prevCheckTime) && !w.prevLiquidity.IsNil() && w.prevLiquidity.IsPositive() {
+		for id, in := range w.incents {
+			from := w.prevCheckTime
+			if in.created.After(from) {
+				from = in.created
+			}
+			if now.After(from) {
+				w.liquidTime[id] += now.Sub(from)
+			}
+		}
+	}
+	w.prevCheckTime, w.prevLiquidity = now, liqNow
+	sumRemaining := sdk.NewDecCoins()
 	for _, rec := range recs {
 		in, ok := w.incents[rec.IncentiveId]
 		if !ok {
@@ -392,7 +448,16 @@ func c08EmissionBound(c *vk.Ctx, w *clWorld, op string) bool {
 		}
 		c.Eval(1)
 		remaining := rec.IncentiveRecordBody.RemainingCoin.Amount
+		sumRemaining = sumRemaining.Add(sdk.NewDecCoinFromDec(in.denom, remaining))
 		emitted := sdkmath.LegacyNewDecFromInt(in.amt).Sub(remaining)
+		// nothing is emitted while the pool has no active liquidity
+		if lt, seen := w.liquidTime[rec.IncentiveId]; seen || emitted.IsPositive() {
+			lb := in.rate.MulInt64(int64(lt)).QuoInt64(1_000_000_000).Add(sdkmath.LegacyOneDec())
+			if emitted.GT(lb) {
+				c.Violate("C08.emitted_without_liquidity", map[string]any{"op": op}, "after %s: incentive record %d (%s%s at %s/s) has emitted %s although the pool had active liquidity for only %s since the record was created: rate x time with liquidity = %s", op, rec.IncentiveId, in.amt, in.denom, in.rate, emitted, lt, lb)
+				return false
+			}
+		}
 		elapsed := now.Sub(in.created)
 		bound := sdkmath.LegacyZeroDec()
 		if elapsed > 0 {
@@ -408,4 +473,34 @@ func c08EmissionBound(c *vk.Ctx, w *clWorld, op string) bool {
 		}
 	}
 	return true
+}
+
+// c08IncentiveMass: on a discarded branch synchronised to the current block time, everything the pool's incentive
+// account owes or still holds for distribution: per position claimable + forfeitable (not yet matured), plus what
+// is left in the incentive records.
+func c08IncentiveMass(w *clWorld) (sdk.DecCoins, bool) {
+	if len(w.pos) == 0 {
+		return nil, false
+	}
+	cctx := w.ch.Fork()
+	ck := w.ch.App.ConcentratedLiquidityKeeper
+	if err := ck.UpdatePoolUptimeAccumulatorsToNow(cctx, w.poolID); err != nil {
+		return nil, false
+	}
+	mass := sdk.NewDecCoins()
+	for _, p := range w.sortedPos() {
+		ci, forf, err := ck.GetClaimableIncentives(cctx, p.id)
+		if err != nil {
+			return nil, false
+		}
+		mass = mass.Add(sdk.NewDecCoinsFromCoins(ci...)...).Add(sdk.NewDecCoinsFromCoins(forf...)...)
+	}
+	recs, err := ck.GetAllIncentiveRecordsForPool(cctx, w.poolID)
+	if err != nil {
+		return nil, false
+	}
+	for _, rec := range recs {
+		mass = mass.Add(sdk.NewDecCoinFromDec(rec.IncentiveRecordBody.RemainingCoin.Denom, rec.IncentiveRecordBody.RemainingCoin.Amount))
+	}
+	return mass, true
 }
